@@ -55,6 +55,8 @@ def run(ctx):
                           s['callee'], which, s['caller'].name, s['violations'][0]['what']),
                       s['call'].file, s['call'].line, config=config, trivial=bool(s.get('trivial')))
             ck.min_instances('error-propagation sites of the download write path', k, 5)
+        from ..rules import extra
+        extra.check_dl_reset(ck, prog, config, 'C05-g')
         # ---- f multipart data state
         me = prog.need_func('multipart_extract')
 
